@@ -328,6 +328,11 @@ type finding struct {
 
 var errDriver = errors.New("driver error")
 
+// errWrongAnswer: the driver itself saw the library report success for something invalid
+// (a verdict true for a malformed signature, a reconstructed signature that does not verify ...).
+// That is a finding about the library ("accepted"), not a harness problem.
+var errWrongAnswer = errors.New("library accepted an invalid input")
+
 // exec runs one case in-process. A Go panic is recovered; a C abort / ASan report kills the
 // process and is attributed by the parent.
 func (f *fn) exec(idx []int) (outcome string, fd *finding) {
@@ -351,6 +356,9 @@ func (f *fn) exec(idx []int) (outcome string, fd *finding) {
 	}
 	if r.out != "" {
 		outcome += "/" + r.out
+	}
+	if errors.Is(r.err, errWrongAnswer) {
+		return outcome, &finding{Kind: "accepted", Sig: "accepted", What: r.err.Error()}
 	}
 	if errors.Is(r.err, errDriver) {
 		return outcome, &finding{Kind: "baseline", Sig: "driver", What: r.err.Error()}
